@@ -237,8 +237,8 @@ func c08Receivers() map[string]func() any {
 				return nil
 			}).Push("x")
 		},
-		"empty OR":  func() any { return stackage.Or() },
-		"LIST enc":  func() any { return stackage.List().SetEncap(`"`).SetDelimiter(",").SetID("x").Push("a", "b") },
+		"empty OR": func() any { return stackage.Or() },
+		"LIST enc": func() any { return stackage.List().SetEncap(`"`).SetDelimiter(",").SetID("x").Push("a", "b") },
 		"Condition enc": func() any {
 			return stackage.Cond("kw", stackage.Eq, "val").SetEncap([]string{"<", ">"})
 		},
